@@ -25,9 +25,9 @@ const modPath = "x.io/test"
 func module() pipe.Tree {
 	return pipe.Tree{
 		"go.mod": pipe.GoMod(modPath, "1.24"),
-		"a/a.go": "package a\n\nimport \"x.io/test/b\"\n\ntype A1 struct{ B b.B1 }\n\ntype A2 int\n",
-		"b/b.go": "package b\n\ntype B1 struct{}\n\ntype B2 string\n",
-		"c/c.go": "package c\n\ntype C1 struct{}\n\ntype C2 []int\n",
+		"a/a.go": "package a\n\nimport \"x.io/test/b\"\n\ntype A1 struct{ B b.B1 }\n\ntype A2 int\n\n// AL is an alias declaration.\ntype AL = A2\n",
+		"b/b.go": "package b\n\ntype B1 struct{}\n\ntype B2 string\n\n// BL is an alias declaration.\ntype BL = B1\n",
+		"c/c.go": "package c\n\ntype C1 struct{}\n\ntype C2 []int\n\n// CL is an alias declaration.\ntype CL = C2\n",
 	}
 }
 
@@ -55,6 +55,8 @@ type Fault struct {
 	Index int    `json:"call_index"`
 	Defer bool   `json:"in_defer_callback"`
 	Kind  string `json:"kind"`
+	// the fault sits in GenerateAliasType for this alias declaration (<pkgpath>.<Name>) instead of a GenerateType call
+	AliasOf string `json:"in_alias_callback_for,omitempty"`
 }
 
 type Case struct {
@@ -69,8 +71,8 @@ type Case struct {
 }
 
 func gens(f *Fault) []pipe.GenScript {
-	g1 := pipe.GenScript{Name: "g1", Default: pipe.Action{Render: "var V_$T_$G = 1\n"}}
-	g2 := pipe.GenScript{Name: "g2", Default: pipe.Action{Render: "var V_$T_$G = 2\n", Defers: []pipe.Action{{Render: "var D_$T_$G = 2\n"}}}}
+	g1 := pipe.GenScript{Name: "g1", Default: pipe.Action{Render: "var V_$T_$G = 1\n"}, Alias: &pipe.Action{Render: "var AL_$T_$G = 1\n"}}
+	g2 := pipe.GenScript{Name: "g2", Default: pipe.Action{Render: "var V_$T_$G = 2\n", Defers: []pipe.Action{{Render: "var D_$T_$G = 2\n"}}}, Alias: &pipe.Action{Render: "var AL_$T_$G = 2\n"}}
 	if f != nil {
 		var a pipe.Action
 		bad := pipe.Action{}
@@ -93,7 +95,11 @@ func gens(f *Fault) []pipe.GenScript {
 		if f.Gen == "g2" {
 			g = &g2
 		}
-		g.ByCall = map[int]pipe.Action{f.Index: a}
+		if f.AliasOf != "" {
+			g.AliasByType = map[string]pipe.Action{f.AliasOf: a}
+		} else {
+			g.ByCall = map[int]pipe.Action{f.Index: a}
+		}
 	}
 	return []pipe.GenScript{g1, g2}
 }
@@ -189,6 +195,9 @@ func faultPoints(r *ref) []Fault {
 			}
 			n[e.Gen]++
 		}
+		if e.Kind == "alias" {
+			out = append(out, Fault{Gen: e.Gen, AliasOf: e.Pkg + "." + e.Type})
+		}
 	}
 	return out
 }
@@ -242,6 +251,9 @@ func checkCase(c *core.Ctx, cs Case) {
 		f := cs.Faults[fi]
 		before, _ := pipe.ReadTree(dir)
 		failPkg := pkgOfCall(r, f.Gen, f.Index)
+		if f.AliasOf != "" {
+			failPkg = strings.TrimPrefix(f.AliasOf[:strings.LastIndex(f.AliasOf, ".")], modPath+"/")
+		}
 		var o pipe.Outcome
 		status, sig := 0, ""
 		if f.Kind == "kill" || f.Kind == "exit" {
